@@ -287,7 +287,9 @@ PROPS = {
         "claim": "Model level: Builder.tla transcribes BMOCBuilderFixedDepth (push with dedup-last and sortedness tracking, drain at capacity, "
                  "buff_to_bmoc with largest_lower_cell_sequence_len and the power-of-two arithmetic, merge by or) as a state machine and TLC checks, "
                  "for every push sequence of <= 5 pushes over 8 (12) cells and every capacity, that accumulated + buffered = pushed at every step, "
-                 "that the sorted flag is truthful and that the result is None iff nothing was pushed (22 k / 280 k states). Code level: "
+                 "that the sorted flag is truthful and that the result is None iff nothing was pushed (22 k / 280 k states). Thorough tier: MC_BmocAlgoDeep "
+                 "runs the transcriptions of pack / not / to_lower_depth on all 83 522 well-formed plain cell lists of depth <= 2 in a base cell "
+                 "(four full siblings at either level, three full sibling base cells beside them: cascades of two levels that must stop at depth 0). Code level: "
                  "the fixed-depth builder must return exactly the set of pushed cells with the requested flag (semantic equality with the forest "
                  "of the pushed set), None iff nothing was pushed; pack must keep the cell-to-state map and leave no four full siblings; lower-depth "
                  "must produce Lower(Sem) (coarse cell kept iff it contained something, full iff entirely full). TLC enumerates every push sequence "
@@ -300,6 +302,7 @@ PROPS = {
         "stages": [
             {"kind": "mc", "module": "MC_Bmoc", "cfg": "MC_Bmoc_flags.cfg", "workers": 6},
             {"kind": "mc", "module": "Builder", "cfg": {"quick": "MC_Builder.cfg", "thorough": "MC_Builder_d2.cfg"}, "workers": 6},
+            {"kind": "mc", "module": "MC_BmocAlgoDeep", "cfg": "MC_BmocAlgoDeep_sib.cfg", "workers": 6, "tiers": ("thorough",)},
             {"kind": "gentrace", "module": "Gen_Bmoc", "cfg": {"quick": "Gen_Bmoc_pushes.cfg", "thorough": "Gen_Bmoc_pushes_thorough.cfg"}, "scenario": "BMOC",
              "trace_module": "Trace_Bmoc", "trace_cfg": "Trace_Bmoc.cfg", "exhaustive": True},
             {"kind": "gentrace", "module": "Gen_Bmoc", "cfg": {"quick": "Gen_Bmoc_cells.cfg", "thorough": "Gen_Bmoc_cells.cfg"}, "scenario": "BMOC",
@@ -404,7 +407,7 @@ PROPS = {
              "trace_module": "Trace_Bmoc", "trace_cfg": "Trace_Bmoc.cfg", "clauses": ["panic", "no_miss"]},
             {"kind": "rec", "profiles": ["release", "debug"], "other_profile_frac": 0.5, "scenario": "CONE", "count": {"quick": 6000, "thorough": 150000}, "trace_module": "Trace_Bmoc", "trace_cfg": "Trace_Bmoc.cfg",
              "shards": 10, "clauses": ["panic", "no_miss"]},
-            {"kind": "rec", "scenario": "CONEBIG", "count": {"quick": 300, "thorough": 8000}, "trace_module": "Trace_Bmoc", "trace_cfg": "Trace_Bmoc.cfg",
+            {"kind": "rec", "scenario": "CONEBIG", "count": {"quick": 800, "thorough": 12000}, "trace_module": "Trace_Bmoc", "trace_cfg": "Trace_Bmoc.cfg",
              "shards": 10, "clauses": ["panic", "no_miss"]},
         ],
     },
@@ -426,7 +429,7 @@ PROPS = {
              "trace_module": "Trace_Bmoc", "trace_cfg": "Trace_Bmoc.cfg", "clauses": ["dmax", "wellformed", "packed", "allsky", "full_truthful", "tight"]},
             {"kind": "rec", "profiles": ["release", "debug"], "other_profile_frac": 0.5, "scenario": "CONE", "count": {"quick": 6000, "thorough": 150000}, "trace_module": "Trace_Bmoc", "trace_cfg": "Trace_Bmoc.cfg",
              "shards": 10, "clauses": ["dmax", "wellformed", "packed", "allsky", "full_truthful", "tight"]},
-            {"kind": "rec", "scenario": "CONEBIG", "count": {"quick": 300, "thorough": 8000}, "trace_module": "Trace_Bmoc", "trace_cfg": "Trace_Bmoc.cfg",
+            {"kind": "rec", "scenario": "CONEBIG", "count": {"quick": 800, "thorough": 12000}, "trace_module": "Trace_Bmoc", "trace_cfg": "Trace_Bmoc.cfg",
              "shards": 10, "clauses": ["dmax", "wellformed", "packed", "allsky", "full_truthful", "tight"]},
         ],
     },
